@@ -27,7 +27,8 @@ impl Dependencies for Block {
     }
 
     fn net_dependencies(&self) -> Vec<Dependency> {
-        get_net_dependencies(self, true)
+        // a block is not a function boundary: only crossing a FUNCTION lets a same-named local of the surrounding code stand for a captured variable
+        get_net_dependencies(self, false)
     }
 }
 
